@@ -273,6 +273,52 @@ theorem melTerm_concat (lt rt : Term) (s t : Nat) :
   · rw [ipow_mul, ← ipow_mod, key.2, ipow_mod, Nat.add_comm]
   · exact (GQ.zero_mul' _).symm
 
+/-- Spec matrix element `⟨t| γ_τ |s⟩` of a Majorana term -/
+def melTermM (s t : Nat) (τ : MTerm) : GQ :=
+  if (actMTerm τ s).2 = t then GQ.ipow (actMTerm τ s).1 else 0
+
+/-- **Majorana products are products of the denoted operators**: for operators whose stored
+terms are strictly increasing (the class invariant, see `majorana_sort_sound` /
+`majorana_merge_sound`), every matrix element of `A * B` is `Σ_{l,r} c_l c_r ⟨t| γ_l γ_r |s⟩`. -/
+theorem mul_hom_majorana (A B : MOp) (hA : ∀ e ∈ A, e.1.Pairwise (· < ·))
+    (hB : ∀ e ∈ B, e.1.Pairwise (· < ·)) (s t : Nat) :
+    den (melTermM s t) (mmul A B) =
+      A.foldr (fun l acc' => B.foldr (fun r acc2 =>
+        l.2 * r.2 * melTermM s t (l.1 ++ r.1) + acc2) 0 + acc') 0 := by
+  rw [den_mmul]
+  have key : ∀ l ∈ A, ∀ r ∈ B,
+      GQ.sgn (mergeM l.1 r.1).2 * melTermM s t (mergeM l.1 r.1).1 = melTermM s t (l.1 ++ r.1) := by
+    intro l hl r hr
+    obtain ⟨_, h⟩ := majorana_merge_sound l.1 r.1 (hA l hl) (hB r hr) s
+    have e2 : (actMTerm (l.1 ++ r.1) s).2 = (actMTerm (mergeM l.1 r.1).1 s).2 := by rw [h]; rfl
+    have e1 : (actMTerm (l.1 ++ r.1) s).1 =
+        ((actMTerm (mergeM l.1 r.1).1 s).1 + 2 * (mergeM l.1 r.1).2) % 4 := by rw [h]; rfl
+    unfold melTermM
+    by_cases ht : (actMTerm (mergeM l.1 r.1).1 s).2 = t
+    · rw [if_pos ht, if_pos (e2.trans ht), e1, sgn_eq_ipow, ipow_mul, ipow_mod, Nat.add_comm]
+    · rw [if_neg ht, if_neg (fun hh => ht (e2.symm.trans hh))]; exact GQ.mul_zero' _
+  -- congruence of the two nested folds
+  induction A with
+  | nil => rfl
+  | cons l A ih =>
+    simp only [List.foldr_cons]
+    rw [ih (fun e he => hA e (List.mem_cons_of_mem _ he))
+          (fun l' hl' r hr => key l' (List.mem_cons_of_mem _ hl') r hr)]
+    congr 1
+    have kl : ∀ r ∈ B, GQ.sgn (mergeM l.1 r.1).2 * melTermM s t (mergeM l.1 r.1).1 =
+        melTermM s t (l.1 ++ r.1) := fun r hr => key l (List.mem_cons_self) r hr
+    clear ih key hA
+    induction B with
+    | nil => rfl
+    | cons r B ihB =>
+      simp only [List.foldr_cons]
+      rw [ihB (fun e he => hB e (List.mem_cons_of_mem _ he))
+            (fun r' hr' => kl r' (List.mem_cons_of_mem _ hr')), kl r (List.mem_cons_self)]
+
+/-- `⟦A += B⟧ = ⟦A⟧ + ⟦B⟧` for MajoranaOperator (no deletion of small sums there). -/
+theorem add_hom_majorana (φ : MTerm → GQ) (A B : MOp) : den φ (miadd A B) = den φ A + den φ B :=
+  den_miadd φ A B
+
 example : ExactAdd GQ.eqTol [([(0, 1)], 1)] [([(0, 1)], -1), ([(2, 3)], GQ.I)] := by
   refine ⟨fun _ => by decide +kernel, fun h => ?_, trivial⟩
   exact absurd h (by decide +kernel)
